@@ -532,5 +532,27 @@ theorem cbStep_done_le (s : CB) (h : s.count = s.unfinished) (hb : s.count < 429
     show endRequest s.count ≤ s.count
     rw [hc, endRequest_succ c (by omega)]; omega
 
+/-! ### droppers across EDS updates -/
+
+/-- the droppers a drop configuration asks for -/
+def droppersOf (ovs : List (String × Nat × Nat)) : List RW :=
+  ovs.map fun (_, n, d) => newDropper (dropRequestsPerMillion n d)
+
+theorem handleDrops_inv (s : DropState) (h : s.drops = s.cats.map fun c => newDropper c.rpm)
+    (ovs : List (String × Nat × Nat)) :
+    (handleDrops s ovs).cats = ovs.map (fun (c, n, d) => (⟨c, dropRequestsPerMillion n d⟩ : DropCfg)) ∧
+    (handleDrops s ovs).drops = droppersOf ovs := by
+  unfold handleDrops
+  simp only
+  by_cases hc : s.cats ≠ ovs.map (fun (c, n, d) => (⟨c, dropRequestsPerMillion n d⟩ : DropCfg))
+  · rw [if_pos hc]
+    refine ⟨rfl, ?_⟩
+    simp [droppersOf, List.map_map, Function.comp_def]
+  · rw [if_neg hc]
+    have hc' := not_not.mp hc
+    refine ⟨hc', ?_⟩
+    rw [h, hc']
+    simp [droppersOf, List.map_map, Function.comp_def]
+
 end GrpcProofs.Lemmas.WRRRandom
 
